@@ -45,7 +45,7 @@ def tainted_params(ana) -> Dict[str, Set[str]]:
                         d = fl.sole_def(lst.id, fl.at(lst))
                         lst = d.ast.value if d is not None and isinstance(d.ast, ast.Assign) else None
                     if isinstance(lst, (ast.List, ast.Tuple)):
-                        pairs = list(zip(callee.params, lst.elts))
+                        pairs = list(zip(callee.own_params, lst.elts))
                 else:
                     try:
                         ba = bind_args(callee, cs.node, skip_self=cs.callee.kind == "method_internal")
